@@ -22,6 +22,7 @@ RULE = (
     "step; queue mode must yield the same messages, errors, registry and writes as line-by-line mode. Enumerated part: all histories up to "
     "length 3 (quick) / 4 (thorough) over a 14-line alphabet x 5 versions. Non-trivial = a re-presentation after children/values existed, or a "
     "replaced child, or an error step whose node id differs from its child id, or >= 2 nodes interleaved; distinct = distinct case JSON."
+    ' Round 6: all 256 node ids enumerated; read errors and clock ticks among the events.'
 )
 ASSUMPTIONS = [
     "battery payloads in the definite class (plain decimal, no .5 tie, 0-100); other spellings are accepted either way",
